@@ -200,7 +200,9 @@ def check(ctx):
                 ctx.ob("C17.R1.raw-turnout", f"{g.qualname}|monotonicity tested on the turnout itself", False, g.where(n),
                        f"monotonicity is tested on {ir.show(diffs[0][2][0], maxdepth=3)[:120]}, which is identically 0 when the last version has no "
                        f"votes: a history revised down to nothing at the end passes as monotone")
-        elif "numpy.abs(" in txt and ".max() > 1" in txt and "results_dem" in txt and "results_gop" in txt and "results_weights" in txt:
+        elif "numpy.abs(" in txt and (".max() > 1" in txt or "> 1).any()" in txt or "numpy.max(numpy.abs(" in txt or "numpy.any((numpy.abs(" in txt) \
+                and "results_dem" in txt and "results_gop" in txt and "results_weights" in txt:
+            # max |b| > 1  and  any(|b| > 1)  are the same test (the batch margins have no NaN at that point: R3.batch)
             kinds["batch"] = (c[1], t, n, txt)
     # F37: a batch that takes votes away from a party is impossible too, and the quotient test cannot see it: with both differences
     # negative (or one negative, one zero) the batch margin lands inside [-1, 1] again. The batch return has to be taken as well whenever
@@ -395,6 +397,10 @@ def check(ctx):
     # ---- R6 consumer --------------------------------------------------------------------------------------------
     ef = ctx.fn(BM, "BootstrapElectionModel._extrapolate_unit_margin")
     cstat = ef.nested.get("compute_correction_statistics")
+    if cstat is None:  # the closure may have been hoisted to a method (or a module function) that groupby.apply is given
+        owner = repo.cls(BM, "BootstrapElectionModel")
+        cstat = next((fn_ for nm_, fn_ in list(owner.methods.items()) + list(repo.mod(BM).functions.items())
+                      if nm_.lstrip("_") == "compute_correction_statistics"), None)
     ctx.require(cstat is not None, f"{ef.where()}: compute_correction_statistics not found")
     cs = ctx.builder().summarize(cstat)
     # the frame whose corrections are averaged: a row selection of the group's frame - one mask with &, or one selection after the other
